@@ -15,6 +15,7 @@ package main
 import (
 	"encoding/json"
 	"fmt"
+	"reflect"
 	"strings"
 	"time"
 
@@ -259,6 +260,9 @@ func c05Run(w *lib.Worker) {
 				if len(exp) > 0 {
 					w.Nontrivial(ptxt + "|" + dtxt + "|" + b0txt)
 				}
+				if ii > 0 && plainOK {
+					c05TypedBindings(w, ctx, p, d, b0)
+				}
 				if ii == 0 && plainOK {
 					// metamorphic: Go-typed forms must answer like the plain JSON form
 					c05Decorations(w, ctx, p, d, plainS)
@@ -416,6 +420,65 @@ func c05NumberTypes(w *lib.Worker, ctx *core.Context, p, d map[string]interface{
 				Summary: fmt.Sprintf("Matches(%#v, %#v) = %v err=%q but the plain JSON form gives %v", dp, dd, gotS, et, expS),
 				Replay:  c05case{p, d, nil, 0, "numbers as Go ints: " + v.name}, Expected: expS, Observed: gotS})
 		}
+	}
+}
+
+// goTyped converts a JSON-typed value into what a Go caller might hold:
+// integral numbers as ints, maps as core.Map, string arrays as []string.
+func goTyped(x interface{}) interface{} {
+	switch v := x.(type) {
+	case float64:
+		if v == float64(int(v)) {
+			return int(v)
+		}
+	case map[string]interface{}:
+		m := core.Map{}
+		for k, y := range v {
+			m[k] = goTyped(y)
+		}
+		return m
+	case []interface{}:
+		ss := make([]string, 0, len(v))
+		for _, y := range v {
+			s, ok := y.(string)
+			if !ok {
+				a := make([]interface{}, len(v))
+				for i, z := range v {
+					a[i] = goTyped(z)
+				}
+				return a
+			}
+			ss = append(ss, s)
+		}
+		if len(ss) > 0 {
+			return ss
+		}
+	}
+	return x
+}
+
+// c05TypedBindings: the caller's initial bindings must come back untouched also
+// when they hold Go-typed values (compared with reflect.DeepEqual: a value
+// replaced by its JSON-typed twin is a modification).
+func c05TypedBindings(w *lib.Worker, ctx *core.Context, p, d, b0 map[string]interface{}) {
+	mk := func() core.Bindings {
+		bs := core.Bindings{}
+		for k, v := range lib.CopyMap(b0) {
+			bs[k] = goTyped(v)
+		}
+		return bs
+	}
+	given, want := mk(), mk()
+	if reflect.DeepEqual(map[string]interface{}(given), lib.CopyMap(b0)) {
+		return // nothing Go-typed in these bindings
+	}
+	core.Match(ctx, lib.CopyMap(p), lib.CopyMap(d), given)
+	w.Eval(1)
+	w.Count("typed_initial_bindings", 1)
+	if !reflect.DeepEqual(given, want) {
+		w.Violation(lib.Violation{Scenario: "triples", Signature: "C05/go-typed-initial-bindings-modified",
+			Summary: fmt.Sprintf("Match(%s, %s, %#v) left the caller's bindings as %#v", lib.Canon(p), lib.Canon(d), want, given),
+			Replay:  c05case{p, d, b0, 0, "go-typed initial bindings"}, Expected: fmt.Sprintf("%#v", want), Observed: fmt.Sprintf("%#v", given)})
 	}
 }
 
